@@ -174,7 +174,14 @@ def _history(case):
     ]
     for o in (0, 1, 3):
         ops.append((f"replace(order={o}).simulate", lambda sim, o=o: np.asarray(sim.replace(order=o).simulate(shape))))
-    res = history.explore(make, ops, case["depth"], atol=1e-5, rtol=1e-5)
+    ta2 = data.particle_box((5, 5, 5), blobs=[(1.0, (0.8, -0.6, 0.4), 1.0), (0.7, (-0.9, 0.7, -0.5), 0.8)]).astype(np.float32)
+    mutators = [
+        # the template of component "a" is replaced (same molecules): later simulations contain the new one
+        ("overwrite(a)", lambda sim: sim.add_molecules(sim.components["a"].molecules, ta2, name="a", overwrite=True)),
+        ("add(c)", lambda sim: sim.add_molecules(Molecules(np.array([[11.0, 4.0, 12.0]])), ta2, name="c", overwrite=True)),
+    ]
+    res = history.explore(make, ops, max(case["depth"], 3), atol=1e-5, rtol=1e-5, mutators=mutators,
+                          prefixes_only_from={"simulate", "simulate_2d", "tilt_series", "replace(order=1).simulate", "subset(a).simulate"} if case["depth"] < 3 else None)
     if res["raises_alone"]:
         raise RuntimeError(f"harness: operations {res['raises_alone']} raise on a fresh simulator")
     viol, seen = [], set()
